@@ -124,11 +124,7 @@ def StringElement.codec (pw pr : Nat) : PCodec Str where
   encT s := ustrT pw s
   Fits s := (Unicode.encUnits s).length < 4294967296                -- (ii) the count is an `I`
   decFits _ := inferInstance
-  encP s :=
-    let a := wBytes (Unicode.be32 (Unicode.encUnits s).length)       -- write_fmt(fp, "I", len(data) // 2)
-    let b := wBytes (Unicode.bytesOfUnits (Unicode.encUnits s))      -- write_bytes(fp, data)
-    let written := a +> b
-    written +> wPad written.2 pw
+  encP s := wUStr pw s
   dec := readUStr pr
   consumed s := if pr = 1 then 4 + 2 * (Unicode.encUnits s).length else (ustrT pw s).length
   WF s :=
